@@ -267,6 +267,26 @@ def gen_cases(rng, n_draws, ns, names=None):
                     yield case
 
 
+def gen_fixed_cases(rng, n_draws, ns):
+    """maximum-likelihood fits with a non-empty proper subset of the parameters fixed (at the generating values): the
+    remaining parameters are estimated by maximum likelihood, so the likelihood must not fall below that of the start
+    values nor - the generating parameters being admissible for the constrained problem - below the generating ones"""
+    for name in KINDS:
+        if name in ("LogNormalNormFit", "VonMises"):
+            continue
+        pars = list(KINDS[name])
+        for _ in range(n_draws):
+            truth = {k: float(v) for k, v in draw_truth(name, rng).items()}
+            k = int(rng.integers(1, len(pars)))
+            fixed = sorted(str(p) for p in rng.choice(pars, size=k, replace=False))
+            if name == "Weibull" and truth["beta"] < 1.3 and "gamma" not in fixed:
+                # free location with a shape near 1: the likelihood is unbounded (known input class, see known findings)
+                fixed = sorted(set(fixed[: max(0, len(pars) - 2)]) | {"gamma"})
+            n = int(rng.choice(ns))
+            yield {"part": "C", "family": name, "truth": truth, "n": n, "seed": int(rng.integers(0, 2 ** 31)),
+                   "start_kind": "fixed", "fixed": fixed, "aux_seed": int(rng.integers(0, 2 ** 31))}
+
+
 def eval_case(case, argmax_start=None):
     """
     runs the real code for one case; returns dict(skip=...) or dict(bad=[(predicate, detail)], fits..., lls...)
@@ -288,6 +308,8 @@ def eval_case(case, argmax_start=None):
         start = None
     elif case["start_kind"] == "user":
         start = draw_user_start(name, truth, rng)
+    elif case["start_kind"] == "fixed":
+        start = {"f_" + p: truth[p] for p in case["fixed"]}
     else:
         start = None if argmax_start is None else argmax_start.get("x")
     out["start"] = start
@@ -295,6 +317,9 @@ def eval_case(case, argmax_start=None):
     if scalable:
         if case["start_kind"] == "argmax":
             start_c = None if argmax_start is None else argmax_start.get("cx")
+        elif case["start_kind"] == "fixed":
+            tc = scale_params(name, truth, c)
+            start_c = {"f_" + p: tc[p] for p in case["fixed"]}
         else:
             start_c = None if start is None else scale_params(name, start, c)
         datasets.append(("cx", c * x, scale_params(name, truth, c), start_c))
@@ -335,7 +360,7 @@ def eval_case(case, argmax_start=None):
                                f"(loses {ll_truth - ll_fit:.4g}); truth={tr}, fit={pars}, "
                                f"data median {float(np.median(data)):.3g} min {float(data.min()):.3g}",
                                unb or {"ll_gap": gap_class(ll_truth - ll_fit)}))
-    if scalable and "x" in fitted and "cx" in fitted and case["start_kind"] != "argmax":
+    if scalable and "x" in fitted and "cx" in fitted and case["start_kind"] not in ("argmax", "fixed"):
         back = scale_params(name, fitted["cx"], 1.0 / c)
         dev = {}
         for p, kind in KINDS[name].items():
@@ -560,7 +585,7 @@ def register(ck, case, res):
         sig = {"entry": entry(name), "predicate": pred}
         if name not in CLOSED_FORM and name != "VonMises":
             # iterative fits: the signature also names the start values and the magnitude class / input class
-            sig["start"] = "user" if case["start_kind"] == "user" else "default"
+            sig["start"] = case["start_kind"] if case["start_kind"] in ("user", "fixed") else "default"
             sig.update(extra)
         ck.fail(sig, case, detail)
         ck.count("C_oracle_failure=" + name + ":" + pred)
@@ -686,6 +711,7 @@ def main(ck):
     n_draws = 150 if thorough else 16
     ns = [100, 1000, 5000] if thorough else [100, 1000]
     cases = list(gen_cases(rng, n_draws, ns))
+    cases += list(gen_fixed_cases(np.random.default_rng([ck.seed, 12]), 40 if thorough else 6, ns))
     plain = [c for c in cases if c["start_kind"] != "argmax"]
     special = [c for c in cases if c["start_kind"] == "argmax"]
     if thorough:
